@@ -598,7 +598,7 @@ def valid_case(case):
         k = case.get('kind')
         if not valid_forest(case.get('doc')):
             return False
-        if k == 'chain':
+        if k in ('chain', 'chainx'):
             ops = case['ops']
             if not ops or ops[0][0] != 'select':
                 return False
@@ -634,7 +634,7 @@ def valid_case(case):
                                                   isinstance(op[2], str) and '\\' not in op[2] and isinstance(op[3], int)):
                     return False
             return True
-        if k == 'form':
+        if k in ('form', 'formx'):
             for kv in case['data']:
                 if len(kv) != 2 or not isinstance(kv[0], str) or not kv[0]:
                     return False
@@ -650,6 +650,8 @@ def oracle_case(case):
     if not valid_case(case):
         raise Malformed()
     k = case.get('kind')
+    if k in ('chainx', 'formx'):
+        return None          # correspondence-only cases: no clause of the property is claimed there
     if k == 'chain':
         return oracle_chain(case)
     if k == 'form':
@@ -826,7 +828,13 @@ def gen_cases(rng, n):
     cases = []
     for _ in range(n):
         r = rng.random()
-        if r < 0.68:
+        if r < 0.04:
+            # outside the hypotheses of the oracle (known finding classes): correspondence only
+            doc = G.gen_doc(rng, rng.choice([1, 2, 2]))
+            cases.append({'kind': 'chainx', 'doc': doc, 'ops': G.gen_chain(rng, 4, doc, wild=True)})
+        elif r < 0.08:
+            cases.append(G.gen_form_case(rng, wild=True))
+        elif r < 0.68:
             doc = G.gen_doc(rng, rng.choice([1, 2, 2, 3]))
             cases.append({'kind': 'chain', 'doc': doc, 'ops': G.gen_chain(rng, 4, doc)})
         elif r < 0.95:
@@ -842,7 +850,7 @@ DIRTY_EXCLUDED = ('remove', 'replace', 'wrap', 'cut', 'copy', 'filter')
 
 def in_theorem_class(ops):
     """mirror of `Admissible true ops` (Genshi/Lemmas/TfChains.lean): the chains covered by
-    chain_wellnested_partial"""
+    chain_wellnested"""
     good = True
     for op in ops:
         n = op[0]
@@ -870,7 +878,17 @@ def process(cases, res):
         res.evaluations += 1
         res.count('kind:' + c['kind'])
         try:
-            if c['kind'] == 'chain':
+            if c['kind'] == 'chainx':
+                real = run_real(c['doc'], c['ops'])
+                f = None
+                res.count('chainx-status:' + real['status'] + (':' + real['err'] if real['err'] else ''))
+                items.append((c, 'chains-outside-oracle', chain_line(c, real), chain_real_answer(real), chain_model_answer))
+            elif c['kind'] == 'formx':
+                f = None
+                st, out = run_filler(c)
+                res.count('formx-status:' + (st if st == 'ok' else 'err:' + out))
+                items.append((c, 'forms-outside-oracle', form_line(c), ['ok', out] if st == 'ok' else 'err', form_model_answer))
+            elif c['kind'] == 'chain':
                 real = run_real(c['doc'], c['ops'])
                 f = oracle_chain(c, real)
                 res.count('chain-len:%d' % (len(c['ops']) - 1))
@@ -879,7 +897,7 @@ def process(cases, res):
                 res.count('chain-status:' + real['status'] + (':' + real['err'] if real['err'] else ''))
                 hits = [sum(1 for _, r in v if r is True or r) for _, v in sorted(real['rec'].items())]
                 res.count('first-select:' + ('matches' if hits and hits[0] else 'empty'))
-                res.count('chain:' + ('in' if in_theorem_class(c['ops']) else 'outside') + '-chain_wellnested_partial')
+                res.count('chain:' + ('in' if in_theorem_class(c['ops']) else 'outside') + '-chain_wellnested')
                 if not G.admissible(c['ops']):
                     res.count('chain:outside-nesting-precondition')
                 k = chain_key(c, real)
